@@ -214,6 +214,26 @@ def check_loop_reset(P, rep, key, label, rule="R-PAIR.reset"):
         if s is None:
             rep.viol(rule, site + " success-edge", P.where(fn, t["line"]), "success edge of the body render not found")
             continue
+        # the register that is read back must be the one the body could set: when the body is rendered with a scope
+        # that owns its registers (SandboxedStackFrame), the reset has to go through that scope, not through the caller's runtime
+        from origins import backward_slice
+        ra = op_local(t["args"][2]) if len(t["args"]) > 2 else None
+        l2 = backward_slice(fn, ra[0])[0] if ra else set()
+        own = {l for l in l2 if "SandboxedStackFrame" in P.local_ty(fn, l) and not P.local_ty(fn, l).startswith("&")}
+        if own:
+            wrong = False
+            for rb in resets:
+                if rb not in P.reach(fn, [s]):
+                    continue
+                a0 = op_local(fn.blocks[rb]["t"]["args"][0]) if fn.blocks[rb]["t"]["args"] else None
+                l1 = backward_slice(fn, a0[0])[0] if a0 else set()
+                if not (l1 & own):
+                    wrong = True
+            if wrong:
+                rep.viol(rule, site + " reset-other-registers", P.where(fn, t["line"]),
+                         "the body is rendered with an isolated scope (own registers) but the interrupt is read back from another runtime's "
+                         "registers: a break/continue raised in the body is never seen")
+                continue
         r = P.reach(fn, [s], stop=set(resets))
         if h in r:
             rep.viol(rule, site + " reset-skipped", P.where(fn, t["line"]),
